@@ -1829,12 +1829,22 @@ PIP_Solution_Node::Tableau
         j_mismatch = j1.index();
         goto end_loop;
       }
+      ++j1;
     }
   }
 
  end_loop:
-  return (j_mismatch != num_params)
-    && column_lower(s, mapping, basis, s_0, col_0, s_1, col_1, *j0, *j1);
+  if (j_mismatch == num_params) {
+    return false;
+  }
+  // Note: an iterator may be at the end of its row, or it may point to
+  // a column following `j_mismatch': the coefficient is zero in both cases.
+  Coefficient_traits::const_reference t_0_mismatch
+    = (j0 != j0_end && j0.index() == j_mismatch) ? *j0 : Coefficient_zero();
+  Coefficient_traits::const_reference t_1_mismatch
+    = (j1 != j1_end && j1.index() == j_mismatch) ? *j1 : Coefficient_zero();
+  return column_lower(s, mapping, basis, s_0, col_0, s_1, col_1,
+                      t_0_mismatch, t_1_mismatch);
 }
 
 void
